@@ -46,6 +46,13 @@ def apply_edit(tree, e, src_tree=None):
         s = A.Symbol(name=e["name"], type=A.ComponentRef(name="Real"))
         s.start = A.Primary(value=float(e["k"]))
         c.add_symbol(s)
+    elif k == "add_redecl_symbol":
+        # a component WITH a redeclaration, added through the API: `RHolder vr_N(redeclare model T = RAlt)`; the symbol
+        # is taken from a parsed donor class, which is the way to obtain a well-formed one
+        import pymoca.parser as P
+
+        donor = P.parse("model Donor\n  %s %s(redeclare model T = %s);\nend Donor;\n" % (e["holder"], e["name"], e["alt"]))
+        c.add_symbol(donor.classes["Donor"].symbols[e["name"]])
     elif k == "remove_symbol":
         s = c.symbols.get(e["name"])
         if s is None:
@@ -229,9 +236,33 @@ class Engine:
                      {"op": "check", "tree": t, "cls": 0, "via": via, "at": at}]
             pos = rng.randrange(2, len(ops) + 1)
             ops[pos:pos] = motif
+        lib = rng.randrange(n_libs)
+        if rng.random() < 0.12:
+            # a component with a redeclaration is added through the API, THEN the tree is copied, then the class named by
+            # the redeclaration is edited in one of the two trees: each tree flattens to what its own edits say
+            # (only the RedeclApi library has the classes this needs)
+            rl = [i for i, f in enumerate(self.lib_files()) if os.path.basename(f) == "RedeclApi.mo"]
+            if rl:
+                lib = rl[0]
+                t = rng.randrange(n_trees)
+                new = n_trees
+                n_trees += 1
+                side = rng.choice([t, new, new])
+                motif = [{"op": "add_redecl_symbol", "tree": t, "cls": 0, "idx": 0, "other": 0, "hub": False, "at_name": "RTarget"},
+                         {"op": "copy", "tree": t}]
+                if rng.random() < 0.4:
+                    motif.append({"op": "copy", "tree": new})
+                    n_trees += 1
+                    side = rng.choice([t, new, new + 1])
+                motif.append({"op": rng.choice(["add_symbol", "add_symbol", "remove_symbol", "replace_class", "add_equation"]),
+                              "tree": side, "cls": 0, "idx": rng.randrange(1000), "other": rng.randrange(8), "hub": False,
+                              "at_name": "RAlt"})
+                motif.append({"op": "check", "tree": rng.choice([t, new]), "cls": 0, "via": rng.choice(["copy", "direct"]),
+                              "at_name": "RTarget"})
+                ops.extend(motif)
         if rng.random() < 0.4:
             ops.append({"op": "check", "tree": rng.randrange(n_trees), "cls": rng.randrange(1000), "via": "direct_last"})
-        return {"lib": rng.randrange(n_libs), "ops": ops}
+        return {"lib": lib, "ops": ops}
 
     def shrink_candidates(self, plan):
         for cand in ddmin_list(plan["ops"]):
@@ -352,6 +383,11 @@ class Engine:
                     if "at" in op:
                         with_eq = [c for c in cur if get_class(rt, c).equations] or cur
                         cls = with_eq[op["at"] % len(with_eq)]
+                    if "at_name" in op:
+                        named = [c for c in cur if c.split(".")[-1] == op["at_name"]]
+                        if not named:
+                            continue
+                        cls = named[0]
                     viol = check(i, cls, op["via"], "explicit check", ["check", op["via"], depth[i]])
                     if viol:
                         break
@@ -363,11 +399,21 @@ class Engine:
                 if "at" in op:
                     with_eq = [c for c in cur if get_class(rt, c).equations] or cur
                     cls = with_eq[op["at"] % len(with_eq)]
+                if "at_name" in op:
+                    named = [c for c in cur if c.split(".")[-1] == op["at_name"]]
+                    if not named:
+                        continue
+                    cls = named[0]
                 node = get_class(rt, cls)
                 uniq[0] += 1
                 e = {"op": k, "class": cls, "k": uniq[0]}
                 if k == "add_symbol":
                     e["name"] = "vs_%d" % uniq[0]
+                elif k == "add_redecl_symbol":
+                    sib = {c.split(".")[-1] for c in cur if c.rsplit(".", 1)[0] == cls.rsplit(".", 1)[0]}
+                    if not {"RHolder", "RAlt"} <= sib:
+                        continue
+                    e["name"], e["holder"], e["alt"] = "vr_%d" % uniq[0], "RHolder", "RAlt"
                 elif k == "remove_symbol":
                     if not node.symbols:
                         continue
